@@ -14,8 +14,8 @@ Every `+=` on a shared array is two atomic steps (load into a register, store re
 update can be exhibited; accesses to thread-local arrays are single steps.
 
 `Config.direct` lists the contributions that task 0 (the non-parallel forces, always run by worker 0) adds
-**directly into the shared arrays, outside the mutex** — empty in mode `All`, non-empty in the other two modes of
-the current code (finding F7).
+**directly into the shared arrays, outside the mutex** — always empty in the current code; non-empty in modes
+`CachedAndNonCached` / `NonCached` of the code before /repo commit 199e8a3a (finding F7, `configOld`).
 -/
 namespace C17
 
@@ -48,24 +48,32 @@ def evaluated (mode : Mode) (f : ForceElt M) : Bool :=
   | .nonCached => !f.posOnly
   | _ => true
 
-/-- the increments task `k` produces for the thread-local arrays (`execute(k)`), current code -/
-def taskLocal (mode : Mode) (forces : List (ForceElt M)) (k : Nat) : List M :=
+/-- the increments task `k` produces for the thread-local arrays (`execute(k)`).
+`old = false`: the code as it is now (after /repo commit 199e8a3a, the fix of finding F7): task 0 hands its
+thread-local arrays to every non-parallel force in every mode.
+`old = true`: the code before that commit: in modes `CachedAndNonCached` / `NonCached` task 0 handed the SHARED
+arrays to the non-parallel forces, so nothing of task 0 went through the thread-local arrays. -/
+def taskLocalV (old : Bool) (mode : Mode) (forces : List (ForceElt M)) (k : Nat) : List M :=
   let nonPar := forces.filter (fun f => !f.parallel)
   let par := forces.filter (fun f => f.parallel)
   if k = 0 then
-    match mode with
-    | .all => nonPar.map (·.value)                       -- thread-local in mode All
-    | _ => []                                            -- straight into the shared arrays otherwise
+    if old then
+      match mode with
+      | .all => nonPar.map (·.value)
+      | _ => []
+    else (nonPar.filter (evaluated mode)).map (·.value)
   else
     match par[k - 1]? with
     | some f => if evaluated mode f then [f.value] else []
     | none => []
 
-/-- the increments task 0 applies directly to the shared arrays (current code) -/
-def taskDirect (mode : Mode) (forces : List (ForceElt M)) : List M :=
-  match mode with
-  | .all => []
-  | _ => ((forces.filter (fun f => !f.parallel)).filter (evaluated mode)).map (·.value)
+/-- the increments task 0 applies directly to the shared arrays, outside the mutex: none in the current code -/
+def taskDirectV (old : Bool) (mode : Mode) (forces : List (ForceElt M)) : List M :=
+  if old then
+    match mode with
+    | .all => []
+    | _ => ((forces.filter (fun f => !f.parallel)).filter (evaluated mode)).map (·.value)
+  else []
 
 /-- `ParallelExecutor(numThreads).execute(task, T)`: worker count -/
 def workers (numThreads : Nat) : Nat := C33.peWorkers numThreads
@@ -78,18 +86,21 @@ def tasksOf (numThreads T w : Nat) : List Nat :=
 the executor is replaced by `ParallelExecutor(1)` -/
 def effectiveThreads (numThreads : Nat) (hasParallel : Bool) : Nat := if hasParallel then numThreads else 1
 
-/-- transcription of the CURRENT code (`forces` = the enabled force elements in index order; `numThreads` already
-passed through `effectiveThreads`) -/
-def configCurrent (numThreads : Nat) (mode : Mode) (forces : List (ForceElt M)) : Config M :=
+/-- transcription of `calcForcesExecutor->execute(calcForcesTask, 1 + #enabledParallelForces)` (`forces` = the
+enabled force elements in index order; `numThreads` already passed through `effectiveThreads`) -/
+def configV (old : Bool) (numThreads : Nat) (mode : Mode) (forces : List (ForceElt M)) : Config M :=
   let T := 1 + (forces.filter (fun f => f.parallel)).length
   { n := workers numThreads,
-    direct := taskDirect mode forces,
-    contribs := fun w => (tasksOf numThreads T w).flatMap (taskLocal mode forces) }
+    direct := taskDirectV old mode forces,
+    contribs := fun w => (tasksOf numThreads T w).flatMap (taskLocalV old mode forces) }
 
-/-- the proposed repair: task 0 uses its thread-local arrays in every mode -/
-def configFixed (numThreads : Nat) (mode : Mode) (forces : List (ForceElt M)) : Config M :=
-  let c := configCurrent numThreads mode forces
-  { n := c.n, direct := [], contribs := fun w => (if w = 0 then c.direct else []) ++ c.contribs w }
+/-- the CURRENT code -/
+abbrev configCurrent (numThreads : Nat) (mode : Mode) (forces : List (ForceElt M)) : Config M :=
+  configV false numThreads mode forces
+
+/-- the code before the fix of finding F7 (kept for the historical witness theorems) -/
+abbrev configOld (numThreads : Nat) (mode : Mode) (forces : List (ForceElt M)) : Config M :=
+  configV true numThreads mode forces
 
 /-! ## transition system -/
 
